@@ -325,6 +325,7 @@ func twoPartySim(ids []party.ID, det *detReader, startR, startS protocol.StartFu
 	s := NewSim(ids, rand.New(rand.NewSource(1)), det)
 	s.AddTwoParty(ids[0], startR, sid, leadR)
 	s.AddTwoParty(ids[1], startS, sid, leadS)
+	s.Seal()
 	return s
 }
 
